@@ -34,6 +34,10 @@ Definition alg_bind (al : alg) (a b : vec) : result (scaled vec) :=
   | ATvtb => tvtb_bind a b
   end.
 
+(* superpose(a, b): element-wise addition; operands of unequal length are rejected (all algebras) *)
+Definition alg_superpose (a b : vec) : result vec :=
+  if size a == size b then Ok (vadd a b) else Err ValueError.
+
 Definition alg_bmat (al : alg) (v : vec) (swap : bool) : result (scaled mat) :=
   match al with
   | AHrr => Ok (plain (hrr_bmat v swap))
